@@ -71,6 +71,51 @@ def field_mutants(rng, raw, fields, quick):
             out.append((kind, set_field(raw, off, w, v)))
     return out
 
+def lying_files(ctx, count):
+    """hostile files whose METADATA parses but lies: built with the spec encoder (driver `ast`, which does not check
+    well-formedness) from a chunk with a large n, a run-length prefix over a wide range whose count field claims 0, 1 or 2
+    numbers (the format never ties counts to the body), no blocks; the body is then replaced by hostile bytes (all ones =
+    maximal run-length varints, zeros, random) of a length the size field tells the truth or lies about. Byte-level
+    mutation practically never produces these (several fields must cooperate)."""
+    from . import c03
+    rng = ctx.rng
+    lines, dts = [], []
+    for _ in range(count):
+        dt = rng.choice([d for d in S.ALL_DT if C.DTYPES[d][2] not in ("bool", "ts96")])
+        P, W, kind, pps = C.DTYPES[dt]
+        gcds = rng.below(2)
+        n = rng.choice([40, 1000, 5000, 100000])
+        codes = c03.rand_tree(rng, rng.choice([1, 1, 2, 3]), 6)
+        ji = rng.below(len(codes))
+        prefs = []
+        for i, code in enumerate(codes):
+            if i == ji:
+                k = rng.choice([1, 2, 7, W - 1, W])
+                lo = 0 if k == W else rng.below((1 << W) - (1 << k))
+                hi = (1 << W) - 1 if k == W else lo + (1 << k) - 1 + rng.choice([0, 0, 1]) * (1 if lo + (1 << k) < (1 << W) else 0)
+                prefs.append((rng.choice([0, 1, 1, 2, n]), lo, hi, code, rng.choice([0, 0, 1, 5, 24]), 1))
+            else:
+                lo = rng.below(1 << W)
+                prefs.append((rng.below(n + 1), lo, lo, code, None, 1))
+        ptxt = ";".join("%d:%x:%x:%s:%s:%x" % (c, lo, hi, code, "-" if j is None else j, g) for (c, lo, hi, code, j, g) in prefs)
+        lines.append("ast %s 1,0,1,%d %d/-/-/%s/-" % (dt, gcds, n, ptxt))
+        dts.append(dt)
+    out = []
+    for dt, line, a in zip(dts, lines, C.driver(lines)):
+        if not a.startswith("ok bytes="):
+            continue
+        raw = bytes.fromhex(a.split(" ")[1][len("bytes="):])
+        if len(raw) < 16 or raw[-1] != 0x2e:
+            continue
+        L = rng.choice([8, 50, 400, 400, 2000])
+        body = rng.choice([b"\xff" * L, b"\xff" * L, b"\x00" * L, bytes(rng.below(256) for _ in range(L)),
+                           bytes([rng.below(256)]) + b"\xff" * (L - 1)])
+        size = rng.choice([L, L, L, 0, 1, 0xffffffff, L + 1])
+        m = bytearray(raw[:-1] + body + b"\x2e")
+        m[10:14] = size.to_bytes(4, "big")
+        out.append((dt, bytes(m)))
+    return out
+
 def run(ctx):
     ctx.explanation = ("partial: theorems cover the arithmetic/indexing facts of the operational model (offset <= range, value <= upper < 2^W, k <= W, metadata bounds, reps <= batch, saturating skip, reader stays inside the data, complete trees never fail but for lack of data) in every reachable state on arbitrary bytes, the word-level reader (layer B), the literal Huffman table lookup (HT) and - C03n - NumDecompressor's dirty batch including the unchecked fast path: no out-of-bounds word index and no usize underflow for any complete tree, buffer and state (numDec_no_panic, fast_guard_sound); NOT covered by theorems: unsigned overflow of lower + offset*gcd in the value reconstruction, the metadata parser's own statements, allocation failure (2^max_depth validation table) - these are exercised by the mutation fuzz (byte-level and field-aware) only")
     rng = ctx.rng
@@ -80,7 +125,9 @@ def run(ctx):
                 "FIELD-AWARE forgeries (the spec decoder's field map of each file: every metadata field - n, body size, moments, "
                 "prefix count, common/own GCD flags and fields, counts, bounds, code lengths, codes, jumpstarts - set to all ones, "
                 "zero, +-1, top bit flipped) of "
-                "valid files of every dtype/flag combination, plus random bytes behind a valid header; every decode entry point "
+                "valid files of every dtype/flag combination, plus random bytes behind a valid header, plus LYING files (metadata that "
+                "parses but lies - run-length prefix over a wide range with count 0..2, large n - built with the spec encoder, "
+                "hostile body bytes, truthful or forged size field); every decode entry point "
                 "and mixed call sequences (whole file, chunk API with skipping, iterator, iterator+skip, incremental writes with "
                 "free_compressed_memory, mixed). Decisive: never a panic, never a hang/timeout, never an abort. A sample is also "
                 "run on the Lean operational model and the class {numbers | error kind} and bit positions are compared. "
@@ -108,6 +155,12 @@ def run(ctx):
             lim = rng.choice([1, 2, 29, 30, 31, 1000, 100000])
             lines.append("dops %s %d %s" % (f["dt"], lim, mk(m.hex(), rng)))
             info.append((f["desc"], kind, name))
+    # parseable but lying metadata + hostile bodies (several cooperating fields), through every entry point
+    if ctx.model_ok:
+        for dt, m in lying_files(ctx, 60 if ctx.quick else 600):
+            for name, mk in ENTRY:
+                lines.append("dops %s %d %s" % (dt, rng.choice([1000, 100000, 100000, 30, 1]), mk(m.hex(), rng)))
+                info.append((dt, "lying-ast", name))
     # random data behind a valid header
     for dt in S.ALL_DT:
         hb = {"i64": 1, "u64": 2, "i32": 3, "u32": 4, "f64": 5, "f32": 6, "bool": 7, "nanos96": 8, "micros96": 9, "i128": 10, "u128": 11,
